@@ -46,6 +46,9 @@ type Mod[T any] struct {
 	Buildable func(t *T, res string) bool // a controller can exist for it under res
 	SameNoID  func(a, b *T) bool          // all fields but the ID equal (thresholds within 1e-8)
 	NoNaN     func(t *T) bool
+	// the module's own clear functions (thin wrappers over the loaders); exercised at the end of a case
+	ClearAll func() error
+	ClearRes func(string) error
 	// generator
 	Alphabet func(r *rng.R, res []string, ref string) []*T // base rules (ID unset)
 	SetID    func(t *T, id string)
@@ -92,6 +95,9 @@ type Obs[T any] struct {
 	Snaps                  []Snap[T]
 	All                    []T
 	Probes                 []ProbeObs[T] `json:",omitempty"`
+	// ClearFault: what went wrong when the case was wound up through ClearRulesOfResource (one
+	// resource after the other) and ClearRules; empty = every clear emptied exactly its scope
+	ClearFault string `json:",omitempty"`
 }
 type ProbeObs[T any] struct {
 	Res     int
@@ -274,12 +280,72 @@ func RunHooked[T any](m *Mod[T], c Case[T], probe bool, after func(k int)) []Obs
 			last.Probes = append(last.Probes, ProbeObs[T]{Res: i, Blocked: b, By: by})
 		}
 	}
-	// leave the process-global managers (maps and raw cache) empty for the next case
+	// wind up through the module's clear functions: ClearRulesOfResource empties exactly its resource,
+	// ClearRules everything; this also leaves the process-global managers empty for the next case
+	if m.ClearRes != nil && m.ClearAll != nil && len(out) > 0 {
+		last := &out[len(out)-1]
+		func() {
+			defer func() {
+				if x := recover(); x != nil {
+					last.ClearFault = fmt.Sprint("clear panicked: ", x)
+				}
+			}()
+			count := func(i int) int {
+				n := len(m.GetRes(c.Res[i]))
+				if m.Ctrls != nil {
+					n += len(m.Ctrls(c.Res[i]))
+				}
+				return n
+			}
+			for i := 1; i <= c.NRes; i++ {
+				before := make([]int, c.NRes+1)
+				for j := 1; j <= c.NRes; j++ {
+					before[j] = count(j)
+				}
+				if err := m.ClearRes(c.Res[i]); err != nil && last.ClearFault == "" {
+					last.ClearFault = fmt.Sprintf("ClearRulesOfResource(res %d) returned an error: %v", i, err)
+				}
+				for j := 1; j <= c.NRes; j++ {
+					switch {
+					case j <= i && count(j) != 0 && last.ClearFault == "":
+						last.ClearFault = fmt.Sprintf("after ClearRulesOfResource(res %d) resource %d still has %d rules/controllers", i, j, count(j))
+					case j > i && count(j) != before[j] && last.ClearFault == "":
+						last.ClearFault = fmt.Sprintf("ClearRulesOfResource(res %d) changed resource %d", i, j)
+					}
+				}
+			}
+			if c.NRes > 0 {
+				// something to clear again for ClearRules
+				m.LoadRes(c.Res[1], lastNonEmpty(c))
+			}
+			if err := m.ClearAll(); err != nil && last.ClearFault == "" {
+				last.ClearFault = fmt.Sprintf("ClearRules returned an error: %v", err)
+			}
+			if n := len(m.GetAll()); n != 0 && last.ClearFault == "" {
+				last.ClearFault = fmt.Sprintf("after ClearRules GetRules still reports %d rules", n)
+			}
+			for j := 1; j <= c.NRes; j++ {
+				if count(j) != 0 && last.ClearFault == "" {
+					last.ClearFault = fmt.Sprintf("after ClearRules resource %d still has %d rules/controllers", j, count(j))
+				}
+			}
+		}()
+	}
 	func() {
 		defer func() { recover() }()
 		m.LoadAll(nil)
 	}()
 	return out
+}
+
+// lastNonEmpty returns fresh copies of the rules of the last non-empty load of the case (any list).
+func lastNonEmpty[T any](c Case[T]) []*T {
+	for k := len(c.Ops) - 1; k >= 0; k-- {
+		if len(c.Ops[k].Rules) > 0 {
+			return c.Ops[k].Rules
+		}
+	}
+	return nil
 }
 
 // CoqCase prints the case with the implementation's observations.
@@ -470,6 +536,10 @@ func Monitor[T any](m *Mod[T], c Case[T], obs []Obs[T], rep *emit.Report) (nontr
 			fail("C13_getters_eq_enforced", "getrules-differs-from-per-resource-getters", fmt.Sprintf("op %d: GetRules has %d rules of this case, per-resource getters %d", k, len(ob.All), n))
 			return
 		}
+	}
+	if len(obs) > 0 && obs[len(obs)-1].ClearFault != "" {
+		fail("C13_scope", "clear-did-not-empty-its-scope", obs[len(obs)-1].ClearFault)
+		return
 	}
 	// probes: the request is rejected iff some enforced rule rejects it, by the first such rule;
 	// rules that failed validation never decide
